@@ -108,8 +108,13 @@ Definition c09_sched_ops (V V' : rview) (st : ostep) : list rop :=
   let bound (x : rres) := existsb (is_res (r_app x) (r_key x)) allocs ||
                           existsb (fun p => (fst p =? r_app x) && (snd p =? r_key x)) swaps in
   (* a required-node ask acted on node n in this cycle *)
+  (* ... or tried to: tryRequiredNode cancels the other reservations of its node BEFORE it finds out that it can neither
+     allocate nor reserve there (e.g. the node is unschedulable); whether that happened is read off the partition counter,
+     which only this cancellation path decrements *)
   let req_on (n : N) := existsb (fun b => ask_req V (r_app b) (r_key b) =? n) allocs ||
-                        existsb (fun b => ask_req V' (r_app b) (r_key b) =? n) added in
+                        existsb (fun b => ask_req V' (r_app b) (r_key b) =? n) added ||
+                        ((rv_part V' <? rv_part V)%Z &&
+                         existsb (fun x => (ra_req x =? n) && negb (n =? 0) && negb (ra_allocated x)) (rv_asks V)) in
   (* PartitionContext.reserve for an ask that already holds a reservation on another node ("fixing" path, reached when
      the preemptor returns a Reserved result for an ask reserved elsewhere): the old reservation is given up inside
      part_reserve itself (RReserve), it is not a cancellation of its own *)
